@@ -35,7 +35,7 @@ statement ("can only add peptides").  If it is a member of the per-transcript re
 (denylist) or the canonical pool computed under the RELAXED setting (oracle: c05_ref_forms, pool) it
 carries the narrow finding signature C05-canonical-under-relaxed; anything else is unexplained.
 """
-import json, os, glob, collections, copy, time, itertools
+import json, os, glob, collections, copy, time, itertools, re
 from harness.lib import oracle as O, impl as I, cvgen as CG, cvcheck as CK, cvsig as SG, gen_reference as G
 
 PROPERTY = 'C05'
@@ -52,8 +52,8 @@ ALPHABET = 'ACDEFGHIKLMNPQRSTVWYU'
 # ------------------------------------------------------------------ sizes
 def sizes(ctx):
     if ctx.quick:
-        return dict(small=110, nested=90, excon=30, circ=40, large=10)
-    return dict(small=700, nested=600, excon=150, circ=250, large=48)
+        return dict(small=70, dense=45, nested=70, allkinds=40, excon=25, circ=30, large=8)
+    return dict(small=500, dense=350, nested=450, allkinds=300, excon=120, circ=200, large=40)
 
 # ------------------------------------------------------------------ run configurations
 def flags_of(run):
@@ -74,6 +74,13 @@ def strict_run(rng, rule, exc_on=False):
     r['min_mw'], r['mw4'] = CG.off_grid_mw(rng, bases=(500, 700, 900, 1100))
     return r
 
+def knobs(rng, run, p=0.5):
+    """lowered collapse knobs: pop-collapse (PVGNodeCollapser) then really happens on small inputs"""
+    if rng.random() < p:
+        run['mnc'] = rng.choice([2, 2, 3, 5])
+        run['naa'] = rng.choice([1, 3, 3, 5])
+    return run
+
 def relax(rng, base):
     """one-dimension relaxations of base (+ flag combinations + one simultaneous relaxation).
     Returns (runs, pairs) with runs[0] = base and pairs = [strict index, relaxed index, dimension]"""
@@ -83,7 +90,7 @@ def relax(rng, base):
         runs.append(run); pairs.append([frm, len(runs) - 1, dim]); return len(runs) - 1
     add(dict(base, k=base['k'] + rng.choice([1, 1, 2])), 0, 'k')
     add(dict(base, min_len=base['min_len'] - rng.choice([1, 2, 3, 4])), 0, 'min_len')
-    add(dict(base, max_len=base['max_len'] + rng.choice([1, 2, 5, 15])), 0, 'max_len')
+    add(dict(base, max_len=max(base['max_len'] + rng.choice([1, 2, 5, 15]), base.get('relax_max', 0))), 0, 'max_len')
     mw, mw4 = CG.off_grid_mw(rng, bases=(0, 200, 400))
     add(dict(base, min_mw=mw, mw4=mw4), 0, 'min_mw')
     multi = dict(base, k=base['k'] + 1, min_len=base['min_len'] - 2, max_len=base['max_len'] + 6, min_mw=mw, mw4=mw4)
@@ -94,6 +101,13 @@ def relax(rng, base):
     pairs.append([w, sw, 'sect'])
     if rng.random() < 0.3:
         add(with_flags(base, 'orf'), 0, 'orf')
+    # the limit relaxations once more UNDER a switch (both runs of the pair carry it)
+    lim_runs = {'k': runs[1], 'min_len': runs[2], 'max_len': runs[3], 'min_mw': runs[4]}
+    for fl, frm in (('sect', s), ('w2f', w)):
+        for dim in rng.sample(sorted(lim_runs), 2 if fl == 'sect' else 1):
+            if fl == 'sect' and dim not in ('max_len', 'k'):
+                dim = 'max_len'
+            add(with_flags(lim_runs[dim], fl), frm, dim)
     return runs, pairs
 
 # ------------------------------------------------------------------ generators
@@ -135,11 +149,79 @@ def gen_small(rng, i, la_other):
                 break
             c = CG.gen_case(rng, coding_p=1.0)
     rule = 'trypsin' if rng.random() < 0.6 else la_other[i % len(la_other)]
-    base = strict_run(rng, rule)
+    base = knobs(rng, strict_run(rng, rule))
     edge_bias(rng, c, base)
     c['files'] = [{'kind': 'var', 'rows': c['gvf']}]
     c['runs'], c['pairs'] = relax(rng, base)
     c['stream'] = 'small'
+    return c
+
+def dense_variants(rng, world, gene, tx, n):
+    """n records, mostly SNVs, spread over two or three neighbouring tryptic fragments (sigma 11 nt) around
+    an interesting position of tx"""
+    gseq = G.gene_seq(world, gene)
+    cents = CG._centres(world, gene, tx)
+    tags = sorted(set(t for t, _ in cents))
+    tag = rng.choice([t for t in tags if t in ('krp', 'sec', 'other')] or tags)
+    tag, tp = rng.choice([c for c in cents if c[0] == tag])
+    L = G.tx_len(tx)
+    seen, out = set(), []
+    for _ in range(300):
+        if len(out) >= n:
+            break
+        ti = tp + int(round(rng.gauss(0, 11)))
+        if tag == 'sec':
+            # around the Sec codon (two thirds upstream), never inside it
+            d = abs(int(round(rng.gauss(0, 9)))) + 1
+            ti = tp - d if rng.random() < 0.67 else tp + 2 + d
+        if not (0 <= ti < L - 4):
+            continue
+        gs = G.g2gene(gene, G.tx2g(gene, tx, ti))
+        if not (0 <= gs < len(gseq) - 4):
+            continue
+        x = rng.random()
+        if x < 0.85:
+            ref = gseq[gs]; alt = CG._mut_base(rng, ref)
+        elif x < 0.93:
+            ref = gseq[gs]; alt = ref + ''.join(rng.choice(CG.NT) for _ in range(3))
+        else:
+            ref = gseq[gs:gs + 4]; alt = ref[:1]
+        if not ref or ref == alt or any(abs(gs - g0) < 2 for g0, _, _ in out) or (gs, ref, alt) in seen:
+            continue
+        seen.add((gs, ref, alt)); out.append((gs, ref, alt))
+    return tag, sorted(out)
+
+def gen_dense(rng, i):
+    """5-8 records (mostly SNVs) in neighbouring tryptic fragments, ALWAYS with lowered collapse knobs: the
+    variant bubbles of one fragment are pop-collapsed, series with one and with two collapsed heads occur"""
+    for _ in range(80):
+        world = G.gen_world(rng, n_chrom=1, max_genes=2, coding_p=0.9, small=True, sec_p=0.45, nf_p=0.15)
+        cands = [(g, t) for g in world['genes'] for t in g['transcripts'] if G.tx_len(t) >= 90 and t['cds']]
+        if i % 3 == 0:
+            cands = [(g, t) for g, t in cands if t.get('sec')]
+        if not cands:
+            continue
+        gene, tx = rng.choice(cands)
+        tag, vs = dense_variants(rng, world, gene, tx, rng.choice([5, 6, 6, 7, 7, 8]))
+        if i % 3 == 0 and tag != 'sec':
+            continue
+        if len(vs) < 4:
+            continue
+        rows = []
+        for gs, ref, alt in vs:
+            for t in gene['transcripts']:
+                kind, _, _ = CG.map_record(gene, t, gs, gs + len(ref))
+                if kind != 'outside':
+                    rows.append([gene['id'], gs + 1, CG.var_id(gs, ref, alt), ref, alt, t['id'], gene['name']])
+        if rows:
+            break
+    c = {'world': world, 'gvf': rows, 'gene': gene['id'], 'target': tx['id'], 'tag': tag}
+    base = knobs(rng, strict_run(rng, 'trypsin'), p=1.0)
+    base['max_len'] = rng.choice([11, 13, 15, 16, 19, 25])
+    edge_bias(rng, c, base)
+    c['files'] = [{'kind': 'var', 'rows': rows}]
+    c['runs'], c['pairs'] = relax(rng, base)
+    c['stream'] = 'dense'
     return c
 
 def edge_bias(rng, c, base):
@@ -154,6 +236,15 @@ def edge_bias(rng, c, base):
     for tx_id, recs in by_tx.items():
         if recs:
             must |= set(O.U(p) for p in O.call('cv_must', CG.tx_input(c, tx_id, recs, wide, [])))
+    us = sorted((p, i) for p in must for i, ch in enumerate(p) if ch == 'U' and i >= 5 and len(p) - i >= 3)
+    if us and rng.random() < 0.6:
+        # a Sec-containing obliged peptide: the strict maximum admits its SECT form p[:i] but not p itself
+        p, i = rng.choice(us)
+        base['max_len'] = rng.randint(i, len(p) - 2)
+        base['min_len'] = min(base['min_len'], max(4, i - 1))
+        base['relax_max'] = len(p) + 1
+        c['edge'] = 'sect:' + p
+        return
     ms = sorted(p for p in must if p.startswith('M') and 6 <= len(p) - 1 <= 30)
     if ms and rng.random() < 0.6:
         p = rng.choice(ms)
@@ -176,7 +267,7 @@ def edge_bias(rng, c, base):
 def gen_nested(rng, i, la_other):
     c = CG.gen_case(rng, nvar=rng.choice([2, 3, 3, 4, 4, 5, 6, 7]), coding_p=0.75)
     rule = 'trypsin' if rng.random() < 0.6 else la_other[i % len(la_other)]
-    base = CG.gen_run(rng, rule=rule)
+    base = knobs(rng, CG.gen_run(rng, rule=rule))
     kept, dropped = split_rows(rng, c['gvf'])
     c['files'] = [{'kind': 'var', 'rows': kept}, {'kind': 'var', 'rows': dropped}]
     c['runs'] = [dict(base, use=[0]), dict(base, use=[0, 1])]
@@ -190,7 +281,7 @@ def gen_nested(rng, i, la_other):
 
 def gen_excon(rng, i):
     c = CG.gen_case(rng, coding_p=0.8)
-    base = strict_run(rng, 'trypsin', exc_on=True)
+    base = knobs(rng, strict_run(rng, 'trypsin', exc_on=True))
     c['files'] = [{'kind': 'var', 'rows': c['gvf']}]
     c['runs'], c['pairs'] = relax(rng, base)
     c['stream'] = 'excon'
@@ -203,7 +294,7 @@ def gen_circ(rng, i):
         cr = circ_rows(rng, gene)
         if cr:
             break
-    base = CG.gen_run(rng, rule='trypsin')
+    base = knobs(rng, CG.gen_run(rng, rule='trypsin'), p=0.4)
     base['min_len'] = rng.choice([5, 6, 7]); base['k'] = rng.choice([0, 0, 1, 1, 2])
     base['extra'] = ['--timeout-seconds', '20']
     c['files'] = [{'kind': 'var', 'rows': c['gvf']}, {'kind': 'circ', 'rows': cr}]
@@ -218,6 +309,66 @@ def gen_circ(rng, i):
         w = with_flags(full, 'w2f')
         c['runs'].append(w); c['pairs'].append([0, len(c['runs']) - 1, 'w2f'])
     c['stream'] = 'circ'
+    return c
+
+def gen_allkinds(rng, i):
+    """one transcript with all record kinds: SNV/INDEL file, fusion file (this transcript is the donor), circRNA
+    file; records sit inside the circRNA fragments, most of them DOWNSTREAM of the fusion's donor breakpoint.
+    Runs: every inclusion order of the three files (nested inputs)."""
+    from harness.props import c07gen as C7
+    for _ in range(300):
+        world = G.gen_world(rng, n_chrom=1, max_genes=rng.choice([2, 3]), small=True, sec_p=0.1, nf_p=0.0,
+                            multi_iso_p=0.4, coding_p=0.85)
+        if len(world['genes']) < 2:
+            continue
+        coding = [(g, t) for g in world['genes'] for t in g['transcripts'] if t['cds'] and G.tx_len(t) >= 90]
+        if not coding:
+            continue
+        gene, tx = rng.choice(coding)
+        others = [(g, t) for g in world['genes'] if g['id'] != gene['id'] for t in g['transcripts'] if G.tx_len(t) >= 30]
+        if not others:
+            continue
+        ag, at = rng.choice(others)
+        nex = len(tx['exons'])
+        ei = rng.randrange(nex); ej = rng.randrange(ei, min(nex, ei + 3))
+        circ = C7.mk_circ(gene, tx, ei, ej)
+        if sum(circ['lengths']) < 30:
+            continue
+        # transcript interval of the circRNA
+        exs = C7.exons_gene_coords(gene, tx)
+        t0 = sum(e - s_ for s_, e in exs[:ei]); t1 = t0 + sum(circ['lengths'])
+        fus = None
+        for _ in range(30):
+            f = C7.mk_fusion(rng, world, gene, tx, ag, at)
+            if f and f['donor_tx_pos'] < t1 - 9:       # breakpoint upstream of (part of) the circRNA
+                fus = f
+                break
+        if not fus:
+            continue
+        lo = max(t0 + 1, fus['donor_tx_pos'] + 1)
+        recs, used = [], set()
+        for _ in range(rng.choice([1, 2, 2, 3, 4])):
+            ti = rng.randrange(lo, t1 - 1) if rng.random() < 0.8 else rng.randrange(max(1, t0), t1 - 1)
+            if any(abs(ti - u) < 4 for u in used):
+                continue
+            used.add(ti)
+            recs.append(C7.mk_record(rng, world, gene, tx, ti, rng.choice(['snv', 'snv', 'snv', 'ins', 'del'])))
+        if recs:
+            break
+    rows = [[r['gene'], r['pos'], r['id'], r['ref'], r['alt'], r['tx'], r['symbol']] for r in recs]
+    frow = [[fus['gene'], fus['pos'], fus['id'], fus['ref'], fus['tx'], fus['symbol'], fus['gpos'], fus['acc_gene'], fus['acc_tx'],
+             fus['acc_symbol'], fus['acc_pos'], fus['acc_gpos']]]
+    crow = [[circ['gene'], circ['start'], circ['id'], circ['offsets'], circ['lengths'], [], circ['tx'], circ['symbol']]]
+    c = {'world': world, 'gvf': rows, 'gene': gene['id'], 'target': tx['id'], 'tag': 'allkinds'}
+    base = knobs(rng, CG.gen_run(rng, rule='trypsin'), p=0.3)
+    base['k'] = rng.choice([0, 1, 1, 2]); base['min_len'] = rng.choice([5, 6, 7])
+    base['extra'] = ['--timeout-seconds', '20']
+    c['files'] = [{'kind': 'var', 'rows': rows}, {'kind': 'fusion', 'rows': frow}, {'kind': 'circ', 'rows': crow}]
+    uses = [[0], [0, 1], [0, 2], [1, 2], [0, 1, 2], [2], [1]]
+    c['runs'] = [dict(base, use=u) for u in uses]
+    # (fewer files, more files)
+    c['pairs'] = [[0, 1, 'file'], [0, 2, 'file'], [1, 4, 'file'], [2, 4, 'file'], [3, 4, 'file'], [5, 2, 'file'], [5, 3, 'file'], [6, 1, 'file'], [6, 3, 'file']]
+    c['stream'] = 'allkinds'
     return c
 
 def gen_large(rng, i, quick=True):
@@ -279,7 +430,9 @@ def gen_cases(ctx):
     n = sizes(ctx)
     cases = []
     cases += [gen_small(rng, i, la_other) for i in range(n['small'])]
+    cases += [gen_dense(rng, i) for i in range(n.get('dense', 0))]
     cases += [gen_nested(rng, i, la_other) for i in range(n['nested'])]
+    cases += [gen_allkinds(rng, i) for i in range(n.get('allkinds', 0))]
     cases += [gen_excon(rng, i) for i in range(n['excon'])]
     cases += [gen_circ(rng, i) for i in range(n['circ'])]
     cases += [gen_large(rng, i, ctx.quick) for i in range(n['large'])]
@@ -292,9 +445,10 @@ def rows_of(case, run):
     return [r for i in idx if case['files'][i]['kind'] == 'var' for r in case['files'][i]['rows']]
 
 def uses_circ(case, run):
+    """the run reads a circRNA or fusion file (backbones the specification does not cover)"""
     use = run.get('use')
     idx = range(len(case['files'])) if use is None else use
-    return any(case['files'][i]['kind'] == 'circ' and case['files'][i]['rows'] for i in idx)
+    return any(case['files'][i]['kind'] in ('circ', 'fusion') and case['files'][i]['rows'] for i in idx)
 
 def spec_covered(case, run):
     """the specification Model/Spec.v (+ SpecFlags.v) covers this run: SNV/MNV/INDEL on linear transcripts,
@@ -368,6 +522,17 @@ def evaluate(ctx, cases, tag='c05'):
     TIMES['oracle'] += time.time() - t0
     t0 = time.time()
     CK.classify([ev for ev in todo if not any(flags_of(ev.run))])
+    for ev in todo:
+        # flagged runs: an emitted sequence outside fl_may_set that is a form of a product of the
+        # look-behind-relaxed digestion is C02's known finding D14b-lookbehind (trypsin W-K-P, ...)
+        if any(flags_of(ev.run)) and ev.extra and ev.run['exc'] == 'None':
+            ps = sorted(ev.extra)
+            ok = [False] * len(ps)
+            for x in ev.xs.values():
+                ok = [a or bool(b) for a, b in zip(ok, O.call('c05_fl_realizable_relaxed2', [x, flags_of(ev.run), ps]))]
+            for p_, o_ in zip(ps, ok):
+                if o_:
+                    ev.extra[p_] = CK.F_PEPSIN
     TIMES['classify'] += time.time() - t0
     return evs
 
@@ -377,6 +542,15 @@ def entry_fields(ent):
     if f and f[-1].isdigit():
         f = f[:-1]
     return f
+
+def entry_ids(ent):
+    """identifiers an entry names: backbone (transcript, FUSION-.. or CIRC-.. id) and record ids; on a fusion
+    backbone the record ids carry the index of the transcript they belong to ('1-SNV-56-A-T' donor, '2-..' accepter)"""
+    f = entry_fields(ent)
+    out = set(f)
+    if f and f[0].startswith('FUSION-'):
+        out |= set(re.sub(r'^\d+-', '', x) for x in f[1:])
+    return out
 
 def lim_of(run):
     return [run['k'], run['mw4'], run['min_len'], run['max_len']]
@@ -433,7 +607,7 @@ def judge_pair(case, a, b, dim, aux):
                 bad.append((p, 'header entry %s carries no %s identifier' % (miss[0], pref)))
         elif dim in ('vars', 'file'):
             new = aux['added_ids']
-            miss = [e for e in ents if not (set(entry_fields(e)) & new)]
+            miss = [e for e in ents if not (entry_ids(e) & new)]
             if not miss:
                 continue
             aux['stats']['header_names_no_added_record'] += 1
@@ -451,19 +625,25 @@ def header_analysis(case, a, b, p, miss, new, aux):
     """p is reported by the relaxed run b (more records) and not by the strict run a, and the header
     entries `miss` name none of the added records.  Returns None if p is nevertheless attributable to
     the added records, else the reason.
-      * small inputs: p is not realizable from the strict record set at all (every witness haplotype
-        uses an added record): attributable; the header merely under-reports (C03's findings D12 /
-        C03-stoploss-header) -- counted, not a C05 violation
+      * small inputs: in the transcripts the entries name, p is not a novel product of any haplotype of the
+        strict record set (every witness haplotype there uses an added record): attributable; the header
+        merely under-reports (C03's findings D12 / C03-stoploss-header) -- counted, not a C05 violation
       * otherwise (large inputs, no haplotype enumeration): an entry that IS a witness with exactly its
         named (old) records shows a derivation without any added record -> not attributable (violation);
         an entry that is not a witness by itself is an untruthful header (C03) and cannot attest either
         way: counted (completed by <= 2 added records / undecided), not a C05 violation"""
     st = aux['stats']
     if spec_covered(case, a.run) and spec_covered(case, b.run):
-        if not any(O.call('cv_realizable', [x, [p]])[0] for x in a.xs.values()):
-            st['header_underreports_but_semantically_attributed'] += 1
-            return None
-        return 'realizable from the strict record set, and header entry %s names no added record' % miss[0]
+        # per transcript named by the entries: is p a NOVEL product (not a product of the unmodified transcript --
+        # may_set alone also contains the unchanged pieces) of some haplotype of the strict record set?
+        for tx_id in sorted(set(entry_fields(e)[0] for e in miss)):
+            x = a.xs.get(tx_id)
+            if x is None:
+                continue            # no record of the strict set maps onto this transcript
+            if O.call('cv_realizable', [x, [p]])[0] and p not in set(O.U(q) for q in O.call('cv_ref', x)):
+                return 'a novel product of %s from the strict record set alone, and header entry %s names no added record' % (tx_id, miss[0])
+        st['header_underreports_but_semantically_attributed'] += 1
+        return None
     if uses_circ(case, b.run) and any(e.startswith('CIRC-') for e in miss):
         # a circRNA entry without any added record claims a pure-circRNA peptide: decidable without the
         # engine -- is p a contiguous part of a translation of the record-free circle (4 copies, 3 frames)?
@@ -851,7 +1031,7 @@ def search_failing_input(ctx, broken):
     witnesses): look for a concrete pair of runs on which the implementation violates the property"""
     global sizes
     old = sizes
-    sizes = lambda ctx: dict(small=40, nested=30, excon=0, circ=10, large=0)
+    sizes = lambda ctx: dict(small=30, dense=20, nested=30, allkinds=10, excon=0, circ=10, large=0)
     try:
         res = run(ctx)
     finally:
